@@ -13,8 +13,8 @@ variable {V R : Type}
 /-! ### Facts about the generated table (re-checked whenever the source changes) -/
 
 theorem structOpen_eq : C08Client.structOpen = '(' := by decide
-theorem serialStep_eq : C08Client.serialStep = 1 := by decide
-theorem serialInit_eq : C08Client.serialInit = 1 := by decide
+/-- All the distinctness argument needs of the counter: it moves forward. -/
+theorem serialStep_pos : 0 < C08Client.serialStep := by decide
 
 /-! ### `_cbCvtReply` -/
 
@@ -160,7 +160,7 @@ theorem assign_distinct : ∀ (evs : List (Ev V R)) (c : Nat), DistinctSerials (
         refine ⟨?_, assign_distinct t _⟩
         intro h
         have := assign_serials_ge t _ _ h
-        rw [serialStep_eq] at this
+        have hpos := serialStep_pos
         omega
       | false =>
         simp only [DistinctSerials, assign, allocSerial, List.filterMap_cons, regSerial]
